@@ -1,0 +1,115 @@
+//go:build verif
+
+package commentparser
+
+// Machine-checked contracts for package commentparser (read by /verif/govc;
+// this file contains comments only and is compiled only with build tag verif).
+//
+// wfIn: the lexer's representation invariant.
+//@ // lrOK: the per-line rune counters live in the array the caller knew or in
+//@ // one allocated since (two-state; used in postconditions and invariants)
+//@ spec wfIn(i *input) bool = i != nil && 0 <= i.offset && i.offset <= len(i.s) && len(i.pos.lineRune) >= 1
+//@
+//@ func (*input).eof
+//@   requires i != nil
+//@   ensures result <==> len(i.s) <= i.offset
+//@   modifies nothing
+//@   props C18
+//@
+//@ func (*input).peekRune
+//@   requires wfIn(i)
+//@   ensures result1 <==> i.offset < len(i.s)
+//@   ensures result1 && result0 < 128 ==> i.s[i.offset] == result0
+//@   ensures result1 && i.s[i.offset] < 128 ==> i.s[i.offset] == result0
+//@   modifies nothing
+//@   props C18
+//@
+//@ func (*input).readRune
+//@   requires wfIn(i)
+//@   ensures wfIn(i) && i.s == old(i.s) && i.lang == old(i.lang) && i.comments == old(i.comments)
+//@   ensures old(i.offset) < len(i.s) ==> old(i.offset) < i.offset && i.offset <= old(i.offset) + 4
+//@   ensures old(i.offset) >= len(i.s) ==> i.offset == old(i.offset)
+//@   ensures old(i.offset) < len(i.s) && result < 128 ==> i.offset == old(i.offset) + 1 && i.s[old(i.offset)] == result
+//@   ensures old(i.offset) < len(i.s) && i.s[old(i.offset)] < 128 ==> i.offset == old(i.offset) + 1 && i.s[old(i.offset)] == result
+//@   ensures ref(i.pos.lineRune) == old(ref(i.pos.lineRune)) || fresh(i.pos.lineRune)
+//@   modifies i.offset, i.pos.line, i.pos.lineRune, elems(i.pos.lineRune)
+//@   props C18
+//@
+//@ // unreadRune is only ever used to push back ASCII runes (delimiter
+//@ // characters and the newline that ends a single-line comment)
+//@ func (*input).unreadRune
+//@   requires wfIn(i) && 0 <= c && c < 128 && i.offset >= 1
+//@   ensures wfIn(i) && i.s == old(i.s) && i.lang == old(i.lang) && i.comments == old(i.comments)
+//@   ensures i.offset == old(i.offset) - 1
+//@   ensures ref(i.pos.lineRune) == old(ref(i.pos.lineRune)) || fresh(i.pos.lineRune)
+//@   modifies i.offset, i.pos.line, i.pos.lineRune, elems(i.pos.lineRune)
+//@   props C18
+//@
+//@ // match: look-ahead with push-back. A failed match restores the offset
+//@ // exactly (unless the input ended inside the delimiter).
+//@ func (*input).match
+//@   requires wfIn(i) && isASCII(s)
+//@   ensures wfIn(i) && i.s == old(i.s) && i.lang == old(i.lang) && i.comments == old(i.comments)
+//@   ensures !result ==> i.offset == old(i.offset) || i.offset == len(i.s)
+//@   ensures result ==> i.offset == old(i.offset) + len(s) && len(s) > 0
+//@   ensures result ==> old(i.offset) <= i.offset
+//@   ensures s == "" ==> !result
+//@   ensures ref(i.pos.lineRune) == old(ref(i.pos.lineRune)) || fresh(i.pos.lineRune)
+//@   modifies i.offset, i.pos.line, i.pos.lineRune, elems(i.pos.lineRune)
+//@   loop 1 invariant wfIn(i) && i.s == old(i.s) && i.lang == old(i.lang) && i.comments == old(i.comments) && isASCII(s) && (read == nil || fresh(read))
+//@   loop 1 invariant (ref(i.pos.lineRune) == old(ref(i.pos.lineRune)) || fresh(i.pos.lineRune)) && len(read) + len(s) == len(saved)
+//@   loop 1 invariant len(s) <= len(saved) && s == saved[len(saved)-len(s):] && (forall k int :: 0 <= k && k < len(read) ==> read[k] == saved[k])
+//@   loop 1 invariant i.offset == old(i.offset) + len(read) && (forall k int :: 0 <= k && k < len(read) ==> 0 < read[k] && read[k] < 128)
+//@   loop 2 invariant wfIn(i) && i.s == old(i.s) && i.lang == old(i.lang) && i.comments == old(i.comments) && -1 <= idx && idx < len(read)
+//@   loop 2 invariant (ref(i.pos.lineRune) == old(ref(i.pos.lineRune)) || fresh(i.pos.lineRune))
+//@   loop 2 invariant i.offset == old(i.offset) + idx + 1 && (forall k int :: 0 <= k && k < len(read) ==> 0 < read[k] && read[k] < 128)
+//@   props C18
+//@
+//@ func (*input).singleLineComment
+//@   requires wfIn(i)
+//@   ensures wfIn(i) && i.s == old(i.s) && i.lang == old(i.lang) && i.comments == old(i.comments)
+//@   ensures !result ==> i.offset == old(i.offset) || i.offset == len(i.s)
+//@   ensures result ==> old(i.offset) < i.offset
+//@   ensures ref(i.pos.lineRune) == old(ref(i.pos.lineRune)) || fresh(i.pos.lineRune)
+//@   modifies i.offset, i.pos.line, i.pos.lineRune, elems(i.pos.lineRune)
+//@   props C18
+//@
+//@ func (*input).multiLineComment
+//@   requires wfIn(i)
+//@   ensures wfIn(i) && i.s == old(i.s) && i.lang == old(i.lang) && i.comments == old(i.comments)
+//@   ensures !result0 ==> i.offset == old(i.offset) || i.offset == len(i.s)
+//@   ensures result0 ==> old(i.offset) < i.offset
+//@   ensures isASCII(result1) && isASCII(result2)
+//@   ensures ref(i.pos.lineRune) == old(ref(i.pos.lineRune)) || fresh(i.pos.lineRune)
+//@   modifies i.offset, i.pos.line, i.pos.lineRune, elems(i.pos.lineRune)
+//@   props C18
+//@
+//@ // lex: topPeek is the offset of the rune examined at the top of the loop.
+//@ // The statement that skips a rune ("ignore non-comments") may only skip
+//@ // that examined rune: no rune is passed over without having been examined
+//@ // as the possible start of a string or comment.
+//@ ghostvar topPeek int
+//@ func (*input).lex
+//@   requires wfIn(i)
+//@   ensures wfIn(i)
+//@   ghostset topPeek = i.offset after peekRune#1
+//@   callreq readRune#last requires i.offset == topPeek || i.offset == len(i.s)
+//@   loop 1 invariant wfIn(i)
+//@   loop 2 invariant wfIn(i)
+//@   loop 3 invariant wfIn(i)
+//@   loop 4 invariant wfIn(i)
+//@   props C18
+//@
+//@ func Parse
+//@   props C18
+//@
+//@ func (Comments).StartLine
+//@   requires len(c) > 0 ==> c[0] != nil
+//@   modifies nothing
+//@   props C18
+//@
+//@ func (Comments).String
+//@   requires forall k int :: 0 <= k && k < len(c) ==> c[k] != nil
+//@   modifies nothing
+//@   loop 1 invariant s == nil || fresh(s)
+//@   props C18
